@@ -562,6 +562,18 @@ def _to_complex(E, x):
     return complex(x)
 
 
+def bounded_simplify(goal, ms=15000):
+    """z3's simplifier under a time limit (it has none of its own and can
+    run for hours on the expansion of large polynomial identities)"""
+    try:
+        g = z3.Goal()
+        g.add(goal)
+        r = z3.TryFor(z3.Tactic('simplify'), ms)(g)
+        return r.as_expr()
+    except z3.Z3Exception:
+        return goal
+
+
 def prove_equal(E, A, B, key, prop=False, timeout_ms=60000, info=None):
     """assert A == B entrywise (prop=True: up to one non-zero scalar)"""
     a, b = flat(A), flat(B)
@@ -660,7 +672,7 @@ def prove_equal(E, A, B, key, prop=False, timeout_ms=60000, info=None):
             E.cover("tolerance-mode")
     links, _ = c.link_constraints()
     E.stats.checks += 1
-    goal = z3.simplify(goal)
+    goal = bounded_simplify(goal)
     if z3.is_false(goal):
         E.stats.checks_unsat += 1
         E.stats.queries += 1
